@@ -47,6 +47,9 @@ func expect(e *ent) int64 {
 	if e.NP == 3 { // two stack-passed arrays instead of (x, s)
 		v += -w.WantX*31 + w.WantArr[0]*31 + w.WantArr2[3]
 	}
+	if e.NP == 4 { // one stack-passed [16]int64
+		v += -w.WantX*31 + w.WantArr16[3]*31
+	}
 	return v
 }
 
@@ -198,7 +201,7 @@ func stdArgs(np int, std bool) []interface{} {
 func lookupTok(b *mocker.Builder, f []string) (hd handle, res string) {
 	var eidS, pkg, raw, m, tmpl string
 	switch {
-	case (len(f) == 6 || len(f) == 7) && (f[0] == "SM" || f[0] == "SX"):
+	case (len(f) == 6 || len(f) == 7) && (f[0] == "SM" || f[0] == "SX" || f[0] == "SP"):
 		pkg, m, eidS, tmpl = f[1], f[4], f[5], "z"
 		if len(f) == 7 {
 			tmpl = f[6]
@@ -214,6 +217,9 @@ func lookupTok(b *mocker.Builder, f []string) (hd handle, res string) {
 	}
 	e := &registry[eid]
 	if (f[0] == "SM" || f[0] == "SX") && (e.Pkg != f[1] || e.T != f[2] || e.Ptr != (f[3] == "1")) {
+		return hd, "err:inconsistent-op"
+	}
+	if f[0] == "SP" && (e.Pkg != f[1] || e.T != f[2] || e.Ptr || f[3] != "1") {
 		return hd, "err:inconsistent-op"
 	}
 	if f[0] == "EC" && b.PkgName() != pkg {
